@@ -137,9 +137,19 @@ class TypeRender:
         if 'Clone' in self.traits and f['clone'] == 'method':
             metas.append('Clone(%s)' % method_spelling('probes::m_clone', key))
         metas += self.extra_field_metas(v, i, f)
+        # companion noise: when Debug is educed only as a bystander, give it field attributes of its own,
+        # before or after the studied trait's attributes
+        noise = []
+        if 'Debug' in self.traits and self.prop != 'C06' and pick([0, 1, 2], 'noise', key) != 0:
+            noise = [pick(['Debug(ignore)', 'Debug = false', 'Debug(method(probes::m_any))'], 'noisek', key)]
+        if noise:
+            if pick([0, 1], 'noisepos', key) == 0:
+                metas = metas + noise
+            else:
+                metas = noise + metas
         if not metas:
             return ''
-        if len(metas) > 1 and pick([0, 1], 'fsplit', key) == 0:
+        if len(metas) > 1 and pick([0, 1, 2], 'fsplit', key) != 0:
             return ' '.join('#[educe(%s)]' % m for m in metas) + ' '
         return '#[educe(%s)] ' % ', '.join(metas)
 
